@@ -5,7 +5,6 @@ set -e
 cd "$(dirname "$0")"
 export GOFLAGS=-mod=mod GOPROXY=off GOSUMDB=off GOTOOLCHAIN=local
 mkdir -p bin .work evidence replays
-cp -f /repo/go.sum go.sum.repo 2>/dev/null || true
 go build -o bin/vinstr ./cmd/vinstr
 go build -o bin/vcheck ./cmd/vcheck
 ./bin/vcheck build
